@@ -26,4 +26,27 @@ impl<K: PartialEq, V> FnvHashMap<K, V> {
     }
     pub fn len(&self) -> usize { self.0.len() }
     pub fn is_empty(&self) -> bool { self.0.is_empty() }
+    pub fn contains_key(&self, k: &K) -> bool { self.get(k).is_some() }
+    pub fn remove(&mut self, k: &K) -> Option<V> {
+        let mut i = 0;
+        while i < self.0.len() { if self.0[i].0 == *k { return Some(self.0.remove(i).1); } i += 1; }
+        None
+    }
+    pub fn iter(&self) -> impl Iterator<Item = (&K, &V)> { self.0.iter().map(|kv| (&kv.0, &kv.1)) }
+    pub fn keys(&self) -> impl Iterator<Item = &K> { self.0.iter().map(|kv| &kv.0) }
+    pub fn values(&self) -> impl Iterator<Item = &V> { self.0.iter().map(|kv| &kv.1) }
+    /// the `entry` API of std's HashMap (subset)
+    pub fn entry(&mut self, k: K) -> Entry<'_, K, V> { Entry { map: self, key: k } }
+}
+pub struct Entry<'a, K, V> { map: &'a mut FnvHashMap<K, V>, key: K }
+impl<'a, K: PartialEq, V> Entry<'a, K, V> {
+    pub fn or_insert_with<F: FnOnce() -> V>(self, f: F) -> &'a mut V {
+        let mut i = 0;
+        let mut found = usize::MAX;
+        while i < self.map.0.len() { if self.map.0[i].0 == self.key { found = i; break; } i += 1; }
+        if found == usize::MAX { self.map.0.push((self.key, f())); found = self.map.0.len() - 1; }
+        &mut self.map.0[found].1
+    }
+    pub fn or_insert(self, v: V) -> &'a mut V { self.or_insert_with(|| v) }
+    pub fn or_default(self) -> &'a mut V where V: Default { self.or_insert_with(V::default) }
 }
